@@ -675,7 +675,9 @@ macro_rules! declare_storage_n {
 
                 #[inline(always)]
                 fn resolve_direct(&self, entity: EntityDirect<A>) -> Option<EntityDirect<A>> {
-                    Some(entity) // Trivially return, as we're already an EntityDirect
+                    // We're already an EntityDirect, but only hand it back if it's still valid.
+                    self.resolve_direct(entity)?;
+                    Some(entity)
                 }
 
                 #[inline]
